@@ -102,7 +102,7 @@ def task(W, payload):
         opts.mixing_pair_bias = 0.6; opts.force_infection = True
     if variant == "perm":
         opts.inexact_split_bias = 0.9 if (payload["index"] // len(VARIANTS)) % 2 == 0 else 0.4
-        if (payload["index"] // len(VARIANTS)) % 2 == 0: opts.force_strat = True; opts.split_bias = 0.95    # splits that sum to one only within the API's tolerance: reordering the strata must still only permute the results
+        if (payload["index"] // len(VARIANTS)) % 2 == 0: opts.force_strat = True; opts.split_bias = 0.95; opts.allow_param_split = False; opts.inexact_split_bias = 1.0    # splits that sum to one only within the API's tolerance: reordering the strata must still only permute the results
     if variant == "perm" and (payload["index"] // len(VARIANTS)) % 2 == 1:
         opts.force_strat = True      # (the shared-object half of the permutation variant needs a stratification to share)
     if variant in ("order", "swap"): opts.allow_post_flows = False
